@@ -16,6 +16,35 @@ fn main() {
             println!("in : {}", hex(&w));
             println!("out: {}", hex(&out));
         }
+        "censusrt" => {
+            let (entries, _) = wgen::opcensus::census(false, Some(2), 16);
+            for e in &entries { if e.op.contains(&av[2]) { println!("{}", e.coords()); println!("{}", hex(&e.module())); } }
+        }
+        "census" => {
+            let (entries, rep) = wgen::opcensus::census(false, Some(2), 16);
+            for e in &entries { if av.len() < 3 || e.op.contains(&av[2]) { println!("{}", e.coords()); } }
+            println!("{} names; unexplained {:?}", rep.accepted_names.len(), rep.unexplained);
+            if av.len() > 3 { for (k, v) in &rep.not_accepted { println!("  {} : {}", k, v); } }
+        }
+        "rt" => {
+            let w = unhex(&av[2]);
+            println!("input valid214: {:?}", validate214(&w, FeatureSet::DEFAULT));
+            let mut m = match walrus::Module::from_buffer(&w) { Ok(m) => m, Err(e) => { println!("walrus rejects: {:#}", e); return; } };
+            if av.len() > 3 && av[3] == "gc" { walrus::passes::gc::run(&mut m); }
+            let out = m.emit_wasm();
+            println!("output valid214: {:?}", validate214(&out, FeatureSet::DEFAULT));
+            let (a, b) = (decode(&w).unwrap(), decode(&out).unwrap());
+            println!("iso: {:?}", iso(&a, &b, IsoMode::RoundTrip).map(|m| m.renumbered()));
+            println!("out: {}", hex(&out));
+        }
+        "bodies" => {
+            let l: usize = av[2].parse().unwrap();
+            let alpha = wgen::body::alphabet();
+            let t = std::time::Instant::now();
+            let mut n = 0; let mut v = 0;
+            for f in 0..alpha.len() { let (m, vv) = wgen::body::enumerate(&alpha, l, Some(f)); n += m.len(); v += vv; }
+            println!("L<={}: members={} validations={} in {:?}", l, n, v, t.elapsed());
+        }
         _ => {}
     }
 }
